@@ -435,7 +435,8 @@ class GodambeOp:
     def strategy(draw):
         k = draw(st.integers(1, 2))
         return dict(k=k, n=draw(st.integers(5, 8)), mseed=draw(st.integers(0, 3)), p=[draw(st.sampled_from([0.8, 1.7, 3.0])) for _ in range(k)],
-                    dseed=draw(st.integers(0, 3)), which=draw(st.sampled_from(['FIM', 'GIM', 'LRT'])), multinom=draw(st.booleans()), log=draw(st.booleans()))
+                    dseed=draw(st.integers(0, 3)), which=draw(st.sampled_from(['FIM', 'GIM', 'LRT'])), multinom=draw(st.booleans()), log=draw(st.booleans()),
+                    container=draw(st.sampled_from(['list', 'array', 'tuple'])))
 
     @staticmethod
     def build(a, layout):
@@ -445,13 +446,15 @@ class GodambeOp:
         mean = model(a['p'], None, None)
         data = dadi.Spectrum(np.round(np.asarray(mean) * 20 + rs.rand(a['n'] + 1) * 3))
         boots = [dadi.Spectrum(np.round(np.asarray(mean) * 20 + rs.rand(a['n'] + 1) * 6)) for _ in range(5)]
-        return dict(data=data, boots=boots, p0=list(a['p']))
+        p0 = [float(v) for v in a['p']]
+        kind = a.get('container', 'list')
+        return dict(data=data, boots=boots, p0=np.array(p0) if kind == 'array' else (tuple(p0) if kind == 'tuple' else p0))
 
     @staticmethod
     def call(a, i):
         from dadi import Godambe
         model = _LinModel(a['mseed'], a['k'], a['n'])     # a new function object for every call, as a user's closure would be
-        p0 = [20.0 * v for v in i['p0']] if False else i['p0']
+        p0 = i['p0']
         if a['which'] == 'FIM':
             return np.asarray(Godambe.FIM_uncert(model, [10], p0, i['data'], log=a['log'], multinom=a['multinom'], eps=0.01), float)
         if a['which'] == 'GIM':
@@ -512,7 +515,7 @@ class Perturb:
     @staticmethod
     def strategy(draw):
         k = draw(st.integers(1, 4))
-        return dict(k=k, seed=draw(st.integers(0, 5)), fold=draw(st.sampled_from([0.5, 1, 2])), bounds=draw(st.sampled_from(['none', 'lists', 'partial'])))
+        return dict(k=k, seed=draw(st.integers(0, 5)), fold=draw(st.sampled_from([0.5, 1, 2])), bounds=draw(st.sampled_from(['none', 'lists', 'partial', 'arrays'])))
 
     @staticmethod
     def build(a, layout):
@@ -522,6 +525,8 @@ class Perturb:
             lo, up = None, None
         elif a['bounds'] == 'lists':
             lo, up = [0.01] * k, [10.0] * k
+        elif a['bounds'] == 'arrays':
+            p, lo, up = np.array(p), np.full(k, 0.01), np.full(k, 10.0)
         else:
             lo, up = [None if j % 2 else 0.01 for j in range(k)], [10.0 if j % 2 else None for j in range(k)]
         return dict(params=p, lower=lo, upper=up)
@@ -584,14 +589,15 @@ class Optimize:
     @staticmethod
     def strategy(draw):
         return dict(seed=draw(st.integers(0, 3)), n=draw(st.integers(4, 7)), which=draw(st.sampled_from(['object_func', 'optimize_log', 'optimize', 'project'])),
-                    fixed=draw(st.booleans()), multinom=draw(st.booleans()), bounds=draw(st.booleans()))
+                    fixed=draw(st.booleans()), multinom=draw(st.booleans()), bounds=draw(st.booleans()), container=draw(st.sampled_from(['list', 'array'])))
 
     @staticmethod
     def build(a, layout):
         import dadi
         model = _LinModel(a['seed'], 2, a['n'])
         data = dadi.Spectrum(np.round(np.asarray(model([1.2, 0.7], None, None)) * 15))
-        return dict(p0=[1.0, 1.0], data=data, lower=[0.05, 0.05] if a['bounds'] else None, upper=[20.0, 20.0] if a['bounds'] else None,
+        wrap = (lambda v: np.array(v, float)) if a.get('container') == 'array' else (lambda v: v)
+        return dict(p0=wrap([1.0, 1.0]), data=data, lower=wrap([0.05, 0.05]) if a['bounds'] else None, upper=wrap([20.0, 20.0]) if a['bounds'] else None,
                     fixed=[None, 0.7] if a['fixed'] else None)
 
     @staticmethod
